@@ -60,6 +60,7 @@ func cmdCheck(args []string) int {
 	tier := fs.String("tier", "quick", "quick|thorough")
 	dumpDir := fs.String("dump", "", "directory to dump queries")
 	fs.Parse(args)
+	repoRoot = strings.TrimSuffix(*repo, "/")
 	if *prop == "" {
 		fmt.Fprintln(os.Stderr, "check: -prop required")
 		return 2
@@ -425,6 +426,22 @@ func cmdCheck(args []string) int {
 	}
 	if len(samples) == 0 {
 		cov["samples"] = []interface{}{"(no obligation discharged)"}
+	}
+	if f := os.Getenv("GOVC_SELFTEST"); f != "" {
+		// must-fail self-test (thorough tier): seeded changes of this property, run on a scratch worktree
+		if data, err := os.ReadFile(f); err == nil {
+			var st []map[string]interface{}
+			if json.Unmarshal(data, &st) == nil {
+				det := 0
+				for _, e := range st {
+					if d, _ := e["detected"].(bool); d {
+						det++
+					}
+				}
+				cov["selftest"] = map[string]interface{}{"seeded_changes": len(st), "detected": det, "results": st,
+					"note": "each seeded change of /verif/seeded is applied to a scratch worktree of /repo's HEAD and this property's quick check is run on it; an undetected change is a weakness of the check, not a violation"}
+			}
+		}
 	}
 	ev := map[string]interface{}{
 		"property_id": *prop, "tier": *tier, "seed": seed, "level": "proof",
